@@ -1022,6 +1022,23 @@ func genRecord(r *Rng, t uint16, special map[string]string, randAll bool) *grec 
 		}
 		fix("Latitude", msec("Latitude"))
 		fix("Longitude", msec("Longitude"))
+		// altitude: centimetres above -100000.00 m; the sign and the fraction change around 10000000
+		fix("Altitude", func(b []byte) []byte {
+			v := binary.BigEndian.Uint32(b)
+			switch variant % 7 {
+			case 1:
+				v = 10000000 - 1 - v%99 // between -1 m and 0 m
+			case 2:
+				v = 10000000 + 1 + v%99 // between 0 m and 1 m
+			case 3:
+				v = 10000000
+			case 4:
+				v = 10000000 - 100*(1+v%3) // whole negative metres
+			case 5:
+				v = []uint32{0, 1, 99, 100, 1<<32 - 1, 1<<32 - 100}[v%6]
+			}
+			return putUint(uint64(v), 32)
+		})
 	}
 	for i, d := range ds {
 		if d.Kind == "skip" {
